@@ -123,6 +123,26 @@ PLAN = {
         "quick": [ph("input", 8, 300)],
         "thorough": [ph("input", 16, 15000)],
     },
+    "C01": {
+        "level": "exploration",
+        "level_text": "Conservation monitor over recorded increment markers and reporter deliveries. Tier B: a deterministic token scheduler serialises incrementers and 2-3 overlapping scope reports at the granularity of the schedule points between the atomic operations of the delta computation (every execution is a real execution of the real code, the trace is the replayable witness). Tier A: real concurrency with PRNG delay injection at the registry/Close/ticker points - ticker, manual passes, report-on-reacquire and root Close racing workers - checking exact per-counter sums, no negative or zero deltas, no over-report; also under the race detector",
+        "level_note": "trusts the recording reporters and the harness's own increment bookkeeping; coverage = the schedules and runs listed in the evidence (distinct traces / interleaving signatures), not all interleavings",
+        "technique": "runtime conservation monitor over event logs; deterministic token scheduler on lock-free paths + delay-injection stress + Go race detector",
+        "rule": "tokens: case = one schedule of 1-2 incrementers (1-4 Inc from a non-negative or hostile value set, optional histogram samples) and 2-3 reporters (1-3 scope reports each) on 1-3 counters, plain/cached; non-trivial = a context switch while a worker is parked inside a library window; distinct = distinct (trace, program) hashes. stress: case = one root lifetime (1-30 scopes x 5-40 counters, 2-6 guaranteed workers, 1-3 close/re-request workers, 1-2 manual passers, 50-200us ticker, Close while two workers still run); distinct = distinct interleaving signatures (point A, point B, foreign points seen in between)",
+        "assumptions": ["recording reporters mon/rec.go", "token scheduler only reorders goroutines at schedule points (mon/sched.go)"],
+        "quick": [ph("tokens", 8, 2500), ph("stress", 8, 6, mode="stress"), ph("stress-race", 2, 3, mode="stress", race=True)],
+        "thorough": [ph("tokens", 16, 125000), ph("stress", 16, 190, mode="stress", timeout=3000), ph("stress-race", 8, 40, mode="stress", race=True, timeout=3000)],
+    },
+    "C02": {
+        "level": "exploration",
+        "level_text": "History monitor over update markers and gauge deliveries (bit patterns). Tier B: token scheduler over the two stores of Update and the swap+load of report with 2-3 overlapping reporters; Tier A: 64 gauges, single updater per gauge, 3 pass goroutines and a ticker, 60 epochs of {burst, join, one pass, check} with delay injection; also under the race detector. Oracle: every delivered pattern was already passed to Update, deliveries <= updates, after quiescence one pass leaves the last update as the most recent delivery, a further pass delivers nothing",
+        "level_note": "trusts the recording reporters; coverage = the schedules and epochs listed in the evidence",
+        "technique": "runtime history monitor; deterministic token scheduler on lock-free paths + delay-injection stress + Go race detector",
+        "rule": "tokens: case = one schedule of 1 updater (1-4 updates with NaN payloads, +-Inf, -0, subnormals, +0) and 2-3 reporters (1-3 scope reports each); non-trivial = context switch inside a library window; distinct = distinct (trace, values) hashes. stress: case = one root lifetime of 60 epochs over 64 gauges; distinct = distinct interleaving signatures",
+        "assumptions": ["recording reporters mon/rec.go", "token scheduler mon/sched.go"],
+        "quick": [ph("tokens", 8, 2500), ph("stress", 4, 3, mode="stress"), ph("stress-race", 2, 2, mode="stress", race=True)],
+        "thorough": [ph("tokens", 16, 62500), ph("stress", 16, 60, mode="stress", timeout=3000), ph("stress-race", 8, 20, mode="stress", race=True, timeout=3000)],
+    },
 }
 
 NOT_APPLICABLE = {}
